@@ -759,6 +759,7 @@ type outcome struct {
 	benign     bool
 	nFalse     int
 	stateDiff  []string
+	benignTrace string
 	cuDelta    int64
 	verifyCall int
 }
@@ -889,7 +890,16 @@ func runCase(u *universe, cfg worldCfg, cors []applied) outcome {
 			// worse: a request that violates a stated condition (not authentic / not for us) left a trace
 			key = "rejected-invalid-request-state-changed/"
 		}
-		o.viols = append(o.viols, ev.Violation{Key: key + primaryClass(o.stateDiff),
+		pc := primaryClass(o.stateDiff)
+		// weaker reading of "session and CU state unchanged": for an authentic request of a paired consumer that is
+		// rejected for another reason, a cached consumer registration or a freshly created EMPTY session (zero CU, zero
+		// relay number) is not a change of session/CU state (an absent session is created with zeros on first use);
+		// it is recorded as an observation only.
+		if o.nFalse == 0 && (pc == "consumer-registered" || pc == "empty-session-added") {
+			o.benignTrace = pc
+			return o
+		}
+		o.viols = append(o.viols, ev.Violation{Key: key + pc,
 			What: fmt.Sprintf("request rejected (%s) but the session manager state changed [%s] (world %s, corruptions %v): before %s after %s",
 				o.reason, strings.Join(o.stateDiff, "+"), cfg, b.changedFields, b0.json(), b1.json()),
 			Replay: replay()})
